@@ -226,7 +226,26 @@ fn sign_case(g: &mut Gen, ctx: &mut Ctx) -> CaseResult {
         if mode == 0 {
             b = b.payload(payload.clone());
         }
+        // sometimes the body protected header is replaced between two signers: each signer signs the
+        // body header in force when its helper is called
+        let mut switch: Option<(usize, Prot)> = None;
+        if nsig >= 2 && g.ratio(1, 3) {
+            let p2 = gen_prot(g, ctx)?;
+            if p2.built.is_some() && p2.p != body.p {
+                switch = Some((1 + g.below(nsig - 1), p2));
+                ctx.class("sign:builder-body-header-replaced-between-signers");
+            }
+        }
+        let mut all = all.clone();
         for (i, s) in signers.iter().enumerate() {
+            if let Some((at, p2)) = &switch {
+                if i == *at {
+                    b = b.protected(p2.built.clone().unwrap());
+                }
+                if i >= *at {
+                    all[i] = ref_sig_structure("Signature", &p2.p, Some(&s.p), &aad, eff_payload);
+                }
+            }
             let sig = CoseSignature { protected: s.value.clone(), unprotected: Header::default(), signature: vec![] };
             let f = |d: &[u8]| {
                 seen.borrow_mut().push(d.to_vec());
@@ -396,7 +415,44 @@ fn accepted_any_case(g: &mut Gen, ctx: &mut Ctx) -> CaseResult {
     Ok(())
 }
 
+/// A built protected header (body or signer) that has no encoding is refused: nothing is signed
+/// for it, in particular not the bytes of a different header.
+fn unencodable_case(g: &mut Gen, ctx: &mut Ctx) -> CaseResult {
+    let (bad, sibling) = gen_unencodable_header(g, ctx);
+    let aad = g.small_bytes();
+    let payload = g.small_bytes();
+    ctx.nontrivial(hash_bytes(format!("u|{:?}|{:?}", bad, aad).as_bytes()));
+    ctx.sample_with(|| format!("built protected header without an encoding: {:?}", bad));
+    let pb = coset::ProtectedHeader { original_data: None, header: bad.clone() };
+    let ps = coset::ProtectedHeader { original_data: None, header: sibling.clone() };
+    let as_signer = g.bool();
+    let c = if as_signer { SignatureContext::CoseSignature } else { SignatureContext::CoseSign1 };
+    let run = |p: coset::ProtectedHeader| {
+        crate::run::catch(|| if as_signer { sig_structure_data(c, coset::ProtectedHeader::default(), Some(p), &aad, &payload) } else { sig_structure_data(c, p, None, &aad, &payload) })
+    };
+    if let Ok(b) = run(pb.clone()) {
+        ensure!(Some(&b) != run(ps).as_ref().ok(), "sig_structure_data: a protected header that cannot be encoded shares to-be-signed bytes with a different header\n  header:  {:?}\n  sibling: {:?}", bad, sibling);
+        fail!("sig_structure_data produced {} for a protected header that has no encoding: {:?}", hex_trunc(&b, 80), bad);
+    }
+    let called = RefCell::new(0u32);
+    let r = crate::run::catch(|| {
+        CoseSign1Builder::new().protected(bad.clone()).payload(payload.clone()).create_signature(&aad, |_| {
+            *called.borrow_mut() += 1;
+            vec![1u8]
+        }).build().signature
+    });
+    ensure!(r.is_err() && *called.borrow() == 0, "create_signature signed something for a protected header that has no encoding: {:?}", bad);
+    let m = CoseSign1 { protected: pb, unprotected: Header::default(), payload: Some(payload.clone()), signature: vec![1] };
+    let called = RefCell::new(0u32);
+    let r = crate::run::catch(|| m.verify_signature(&aad, |_, _| -> Result<(), u8> { *called.borrow_mut() += 1; Ok(()) }));
+    ensure!(r.is_err() && *called.borrow() == 0, "verify_signature handed the verifier something for a protected header that has no encoding: {:?}", bad);
+    Ok(())
+}
+
 fn case(g: &mut Gen, ctx: &mut Ctx) -> CaseResult {
+    if g.ratio(1, 16) {
+        return unencodable_case(g, ctx);
+    }
     match g.weighted(&[4, 4, 3, 3, 2]) {
         0 => sign1_case(g, ctx),
         1 => sign_case(g, ctx),
